@@ -415,6 +415,8 @@ pub fn run(tier: Tier) -> i32 {
                 "sort(n)", "max(n)", "min(n)", "sum(n)", "avg(n)", "length(n)", "reverse(n)", "sort(s)", "max(s)", "min(s)", "join(',', s)", "length(join('', s))", "length(o)", "length(n)",
                 "reverse(sort(n)) == sort_by(n, &@) | type(@)", "to_string(n) | length(@)", "keys(o[0])", "n[?@ > `0`] | length(@)", "o[*].k | sum(@)", "contains(n, `8`)", "contains(s, '22')",
                 "sort_by(o, &k)[*].[i, type(k)] | length(@)", "not_null(max_by(o, &k).i, min_by(o, &k).i)",
+                // expression references whose body contains a top-level pipe / or / and / comparison
+                "sort_by(o, &@ | k)[*].i", "map(&@ | i, o) | length(@)", "max_by(o, &k | @).i", "min_by(o, &s || k).i", "sort_by(o, &k && s)[0].i", "map(&k == `1`, o) | length(@)", "map(&[k] | [0], o)[3]",
             ] {
                 check_call_or_general(e, &d, st);
             }
@@ -425,6 +427,7 @@ pub fn run(tier: Tier) -> i32 {
                     json!(9007199254740993u64), json!(9007199254740992.0), json!(9007199254740992u64), json!(9007199254740994u64), json!(9007199254740994.0),
                     json!(9007199254740991u64), json!(9007199254740996.0), json!(9007199254740995u64), json!(-9007199254740993i64), json!(-9007199254740992.0),
                     json!(18446744073709551615u64), json!(1.8446744073709552e19), json!(18446744073709549568u64), json!(9223372036854775807i64), json!(9.223372036854776e18), json!(9223372036854775808u64),
+                    json!(i64::MIN), json!(-9.223372036854775808e18), json!(i64::MIN + 1), json!(-9.223372036854777e18),
                 ];
                 let mm = n.min(96);
                 let mixed: Vec<Value> = (0..mm).map(|i| base[(i * 7 + i / 5) % base.len()].clone()).collect();
